@@ -39,6 +39,8 @@ pub enum Op {
     HeaderDefault,
     HeaderRow(u32),
     Unknown,
+    /// a name that is not a sheet name but close to one (sheet index, kind of near miss)
+    Near(u8, u8),
 }
 
 #[derive(Debug, Clone, Serialize, Deserialize)]
@@ -162,6 +164,10 @@ impl Wb {
                             Ok(t) => s.push_str(&format!(" [{} {} {:?} {}]", t.name(), t.sheet_name(), t.columns(), canon_range(t.data()))),
                             Err(_) => s.push_str(" Err"),
                         }
+                        match w.table_by_name_ref(&n) {
+                            Ok(t) => s.push_str(&format!(" ref[{} {} {:?} {}]", t.name(), t.sheet_name(), t.columns(), canon_range(&to_owned(t.data().clone())))),
+                            Err(_) => s.push_str(" refErr"),
+                        }
                     }
                     s
                 };
@@ -189,6 +195,29 @@ impl Wb {
             Op::HeaderRow(n) => {
                 each!(self, w => { w.with_header_row(HeaderRow::Row(*n)); });
                 String::new()
+            }
+            Op::Near(i, kind) => {
+                let real = name(*i);
+                let cand = match kind % 6 {
+                    0 => real.to_uppercase(),
+                    1 => real.to_lowercase(),
+                    2 => format!("{real} "),
+                    3 => format!(" {real}"),
+                    4 => real.chars().skip(1).collect(),
+                    _ => String::new(),
+                };
+                if names.iter().any(|n| *n == cand) {
+                    return "is-a-sheet".to_string();
+                }
+                let a = each!(self, w => w.worksheet_range(&cand).is_err());
+                let b = each!(self, w => w.worksheet_formula(&cand).is_err());
+                let c = match self {
+                    Wb::Xlsx(w) => w.worksheet_range_ref(&cand).is_err(),
+                    Wb::Xlsb(w) => w.worksheet_range_ref(&cand).is_err(),
+                    Wb::Auto(w) if matches!(w, Sheets::Xlsx(_) | Sheets::Xlsb(_)) => w.worksheet_range_ref(&cand).is_err(),
+                    _ => true,
+                };
+                format!("near-miss {cand:?}: range-err={a} formula-err={b} ref-err={c}")
             }
             Op::Unknown => {
                 let a = each!(self, w => w.worksheet_range("\u{1}no such sheet").is_err());
@@ -224,6 +253,7 @@ fn open(doc: &Doc, bytes: Vec<u8>) -> Result<Wb, String> {
 fn oracle(case: &Case) -> Report {
     let mut rep = Report::new();
     let (bytes, model) = bytes_and_model(&case.doc);
+    let fresh_bytes = bytes.clone();
     let mut direct = match open(&case.doc, bytes.clone()) {
         Ok(w) => w,
         Err(e) => {
@@ -329,6 +359,30 @@ fn oracle(case: &Case) -> Report {
                 }
                 Some(_) => rep.label("repeated-call"),
                 None => {
+                    // first time this call is made under this option: a freshly opened workbook
+                    // with only the option replayed must answer the same
+                    let fresh = guard(|| {
+                        let mut w = open(&case.doc, fresh_bytes.clone())?;
+                        match header.strip_prefix("row") {
+                            Some(k) => {
+                                let k: u32 = k.parse().unwrap_or(0);
+                                each!(&mut w, x => { x.with_header_row(HeaderRow::Row(k)); });
+                            }
+                            None => each!(&mut w, x => { x.with_header_row(HeaderRow::FirstNonEmptyRow); }),
+                        }
+                        Ok::<String, String>(w.exec(op))
+                    });
+                    match fresh {
+                        Ok(Ok(f)) if f == a => {}
+                        Ok(Ok(f)) => {
+                            rep.fail(format!("step {step} {op:?} (header option {header}) returns {}, a freshly opened workbook under the same option returns {}", cut(&a), cut(&f)));
+                            return rep;
+                        }
+                        other => {
+                            rep.fail(format!("step {step} {op:?}: the call on a freshly opened workbook failed: {other:?}"));
+                            return rep;
+                        }
+                    }
                     memo.insert(key, (step, a.clone()));
                 }
             }
@@ -370,6 +424,13 @@ fn oracle(case: &Case) -> Report {
             }
             for s in 0..names.len() {
                 kinds_on_sheet.entry(s).or_default().push("worksheets");
+            }
+        }
+        if let Op::Near(..) = op {
+            rep.label("near-miss-name");
+            if a != "is-a-sheet" && !a.ends_with("range-err=true formula-err=true ref-err=true") {
+                rep.fail(format!("step {step}: a name that is not in sheet_names() is served: {a}"));
+                return rep;
             }
         }
         if let Op::Unknown = op {
@@ -425,6 +486,7 @@ fn case_strategy() -> impl Strategy<Value = Case> {
         2 => Just(Op::HeaderDefault),
         2 => prop_oneof![Just(0u32), Just(1), Just(3), 0u32..40, Just(70_000), Just(u32::MAX)].prop_map(Op::HeaderRow),
         1 => Just(Op::Unknown),
+        2 => (0u8..4, 0u8..6).prop_map(|(i, k)| Op::Near(i, k)),
     ];
     (doc, proptest::collection::vec(op, 5..40)).prop_map(|(doc, history)| Case { doc, history })
 }
